@@ -371,8 +371,12 @@ class MinDistanceThresholder(SoftBitThresholder):
         # Find closest reference point for each input value
         min_indices = torch.argmin(distances, dim=1)
 
-        # Map back to bit values (assuming ref_points[0] maps to bit 0)
-        result = min_indices.float()
+        if self.input_type == InputType.LLR:
+            # A negative representative LLR means bit 1, a positive one bit 0
+            result = (self.ref_points[min_indices] < 0).float()
+        else:
+            # Map back to bit values (assuming ref_points[0] maps to bit 0)
+            result = min_indices.float()
 
         # Reshape back to original dimensions
         return result.reshape(original_shape)
